@@ -962,10 +962,39 @@ void Explorer<FSM>::checkC02(const Node& node, Exec& x) {
 								if (l >= 0 && E::isOrtho(l)) resolvedByI = true;
 							}
 						}
-						if (resolvedByI && isAncestorOrSelf(top, rb) && (reqs[i].dest != reqs[j].dest || reqs[i].kind != reqs[j].kind)) sameDest = true;
+						// request j reaches into the same branch of the machine (the sub-tree of the root's sub-state on its path): it re-targets,
+						// freshly enters or - after an earlier conflicting request at a common ancestor - switches back to a sub-tree containing rb
+						int t0 = reqs[j].dest;
+						while (E::D(t0).parent > 0) t0 = E::D(t0).parent;
+						const bool retargetedByJ = reqs[j].dest == 0 || isAncestorOrSelf(t0, rb) || isAncestorOrSelf(top, rb);
+						if (resolvedByI && retargetedByJ && (reqs[i].dest != reqs[j].dest || reqs[i].kind != reqs[j].kind)) sameDest = true;
 					}
+				// not judged: the differing region belongs to (lies on the path of, or was resolved by) a request that a LATER request of the
+				// batch conflicts with (their paths take different sub-states of a composite region) - whether such a request is still in
+				// force once a third request returns to its branch is not stated
+				bool overridden = false;
+				if (rb >= 0) {
+					auto diverge = [&](int d1, int d2) {
+						for (int t = d1; E::D(t).parent >= 0; t = E::D(t).parent) {
+							const int a = E::D(t).parent;
+							if (!E::isCompo(a) || !isAncestorOrSelf(a, d2) || d2 == a) continue;
+							int u = d2; while (E::D(u).parent != a) u = E::D(u).parent;
+							if (u != t) return true;
+						}
+						return false;
+					};
+					for (size_t i = 0; i < reqs.size() && !overridden; ++i) {
+						if (reqs[i].kind == T_SCHEDULE) continue;
+						int topI = reqs[i].dest;
+						while (E::D(topI).parent >= 0 && !E::isCompo(E::D(topI).parent)) topI = E::D(topI).parent;
+						if (!(isAncestorOrSelf(rb, reqs[i].dest) || isAncestorOrSelf(reqs[i].dest, rb) || isAncestorOrSelf(topI, rb))) continue;
+						for (size_t k = i + 1; k < reqs.size(); ++k) if (reqs[k].kind != T_SCHEDULE && diverge(reqs[i].dest, reqs[k].dest)) overridden = true;
+					}
+				}
+				if (overridden && !sameDest) { ++counters["c02_batch_model_differs_after_overridden_request_not_judged"]; }
+				else
 				++counters[sameDest ? "c02_batch_model_differs_same_destination_other_kind" : "c02_batch_model_differs_other"];
-				if (!m.usedSelectOnRegion) {
+				if (!m.usedSelectOnRegion && !(overridden && !sameDest)) {
 					// the map semantics (every request's path is kept unless a later request conflicts; regions are resolved by the kind of
 					// the request that first reaches them) is exact for batches as well - except when a later request addresses a region
 					// that an earlier request (to the same region or to an ancestor) already resolved: the library keeps the earlier
